@@ -19,27 +19,40 @@ def transposeI (m : List (List Int)) : List (List Int) :=
   | [] => []
   | r :: _ => (List.range r.length).map (fun c => m.map (fun row => row.getD c 0))
 
+/-- positions (in `step_sizes`) of the jumps that start a new tile: `np.where(step_sizes > 1)[0]` -/
+def tileIdxOf (stepSizes : List Nat) : List Nat :=
+  (List.range stepSizes.length).filter (fun i => stepSizes.getD i 0 > 1)
+
+/-- `tile_starts`: 0, the start of every further tile, and the length of the row -/
+def tileStartsFn (n : Nat) (starts tileIdx : List Nat) : List Nat :=
+  if tileIdx.isEmpty then [0, n] else (0 :: tileIdx.map (fun i => starts.getD i 0)) ++ [n]
+
+/-- the sub-sections of the row between consecutive tile starts -/
+def subsOf (inds tileStarts : List Nat) : List (List Nat) :=
+  (List.range (tileStarts.length - 1)).map (fun i =>
+    (inds.drop (tileStarts.getD i 0)).take (tileStarts.getD (i + 1) 0 - tileStarts.getD i 0))
+
 /-- the per-dimension body of the loop in `get_unit_values` -/
-def unitValuesRow (inds : List Nat) (vals : List Int) : Except PyErr (List Int) := do
+def unitValuesRow (inds : List Nat) (vals : List Int) : Except PyErr (List Int) :=
   match inds.min? with
-  | none => throw .valueErr                       -- np.min of an empty row
+  | none => .error .valueErr                       -- np.min of an empty row
   | some mn =>
     let starts := whereEq inds mn
-    if starts.headD 1 != 0 then throw .valueErr   -- "not starting with 0"
+    if starts.headD 1 != 0 then .error .valueErr   -- "not starting with 0"
+    else
     let stepSizes := 1 :: diffNat starts
     -- np.where(np.unique(step_sizes) - 1)[0].size > 1  → "Non constant step sizes"
-    if ((stepSizes.eraseDups).filter (· != 1)).length > 1 then throw .valueErr
-    let tileIdx := (List.range stepSizes.length).filter (fun i => stepSizes.getD i 0 > 1)
-    let n := inds.length
-    let tileStarts := if tileIdx.isEmpty then [0, n] else (0 :: tileIdx.map (fun i => starts.getD i 0)) ++ [n]
-    if !tileIdx.isEmpty then
-      let subs := (List.range (tileStarts.length - 1)).map (fun i =>
-        (inds.drop (tileStarts.getD i 0)).take (tileStarts.getD (i + 1) 0 - tileStarts.getD i 0))
-      -- ragged sub-sections cannot be stacked (ValueError); equal length but different → ValueError
-      if !(subs.all (fun s => s == subs.headD [])) then throw .valueErr
+    if ((stepSizes.eraseDups).filter (· != 1)).length > 1 then .error .valueErr
+    else
+    let tileIdx := tileIdxOf stepSizes
+    let tileStarts := tileStartsFn inds.length starts tileIdx
+    -- ragged sub-sections cannot be stacked (ValueError); equal length but different → ValueError
+    if !tileIdx.isEmpty && !((subsOf inds tileStarts).all (fun s => s == (subsOf inds tileStarts).headD [])) then
+      .error .valueErr
+    else
     let subsection := (inds.drop (tileStarts.getD 0 0)).take (tileStarts.getD 1 0 - tileStarts.getD 0 0)
     let stepInds := 0 :: changePositions subsection
-    return stepInds.map (fun i => vals.getD i 0)
+    .ok (stepInds.map (fun i => vals.getD i 0))
 
 /-- `get_unit_values(ds_inds, ds_vals, dim_names, all_dim_names, is_spec)` on matrices AS STORED -/
 def getUnitValues (inds : List (List Nat)) (vals : List (List Int)) (allNames : List String)
@@ -53,12 +66,11 @@ def getUnitValues (inds : List (List Nat)) (vals : List (List Int)) (allNames : 
   if allNames.length != indsM.length then throw .valueErr
   let wanted := dimNames.getD allNames
   if !(wanted.all (fun nm => allNames.contains nm)) then throw .keyErr
-  let mut out : List (String × List Int) := []
-  for nm in allNames do
+  -- the loop runs over ALL dimensions (an irregular unwanted dimension still raises), in order
+  let rows ← mapME (fun nm =>
     let row := allNames.findIdx (· == nm)          -- np.where(all_dim_names == dim_name)[0][0]
-    let uv ← unitValuesRow (indsM.getD row []) (valsM.getD row [])
-    if wanted.contains nm then out := out ++ [(nm, uv)]
-  return out
+    unitValuesRow (indsM.getD row []) (valsM.getD row [])) allNames
+  return (allNames.zip rows).filter (fun p => wanted.contains p.1)
 
 /-- `create_spec_inds_from_vals` on a k × n values matrix -/
 def createSpecIndsFromVals (vals : List (List Int)) : List (List Nat) :=
